@@ -1882,6 +1882,15 @@ typedef struct {
 } PegCall;
 
 /* Initialize state for peg cfunctions */
+/* The matcher keeps raw pointers into the subject while it calls back into Janet (cmt, replacement
+ * functions). A buffer could be pushed to - and so reallocated - by such a callback: match a copy. */
+static void peg_freeze_subject(Janet *argv, int32_t n) {
+    if (janet_checktype(argv[n], JANET_BUFFER)) {
+        JanetBuffer *b = janet_unwrap_buffer(argv[n]);
+        argv[n] = janet_stringv(b->data, b->count);
+    }
+}
+
 static PegCall peg_cfun_init(int32_t argc, Janet *argv, int get_replace) {
     PegCall ret;
     int32_t min = get_replace ? 3 : 2;
@@ -1894,8 +1903,10 @@ static PegCall peg_cfun_init(int32_t argc, Janet *argv, int get_replace) {
     }
     if (get_replace) {
         ret.subst = argv[1];
+        peg_freeze_subject(argv, 2);
         ret.bytes = janet_getbytes(argv, 2);
     } else {
+        peg_freeze_subject(argv, 1);
         ret.bytes = janet_getbytes(argv, 1);
     }
     if (argc > min) {
